@@ -11,12 +11,12 @@ checks = json.load(open(os.path.join(HERE, "checks.json")))
 CLAIMED = {
  "C01": ("exploration",
          "rapid-generated concurrent request rounds through the full stack; per-nonce differential against recording backends",
-         "Rounds of 1..32 requests (all route families, methods, generated paths/queries, body sizes 0..4 MiB around the 1 MiB inspection limit, JSON/non-JSON, Content-Length and generated chunk plans, delayed tails) are released together through the production assembly on both engines; every upstream request is matched to its client request by nonce and compared (method, stripped path, raw query, length, SHA-256; for translated requests model and content ownership), with exactly-once delivery and no phantom upstream request.",
+         "Rounds of 1..32 requests (all route families, methods, generated paths/queries, body sizes 0..4 MiB around the 1 MiB inspection limit, JSON/non-JSON, Content-Length and generated chunk plans, delayed tails) are released together through the production assembly on both engines; every upstream request is matched to its client request by nonce and compared (method, stripped path, raw query, length, SHA-256; for translated requests model and content ownership), with exactly-once delivery and no phantom upstream request. In a quarter of the rounds a refusing endpoint is in rotation, so that some requests are dispatched to it first and replayed on a working endpoint (the replayed body is judged like any other).",
          "Schedule-dependent: covers the interleavings 16 cores produce for harness-shaped rounds (large chunked bodies with delayed tails among small inspected ones), not all schedules; replay repeats a round 40 times.",
          "DESIGN.md §3 C01"),
  "C02": ("fault_enumeration",
          "fault-injecting raw-TCP backends + rapid-generated fault combinations; transcript-prefix oracle",
-         "Every single-fault shape (reset/close/stall before headers, after headers, after k body bytes, truncated chunked, short Content-Length, garbage, refuse) is enumerated as first-dispatched backend in front of a healthy one on both engines x 3 proxy profiles, and fault combinations over 1..3 backends are rapid-generated; the client's bytes are compared with the per-backend transcripts (status, end-to-end headers, body prefix, no byte of another attempt, no dispatch after delivery began).",
+         "Every single-fault shape (reset/close/stall before headers, after headers, after k body bytes, truncated chunked, short Content-Length, garbage, refuse) is enumerated as first-dispatched backend in front of a healthy one on both engines x 3 proxy profiles, and fault combinations over 1..3 backends are rapid-generated; the client's bytes are compared with the per-backend transcripts (status, end-to-end headers, body prefix, no byte of another attempt, no dispatch after delivery began). Backends also answer without a Content-Type header (the type net/http then sniffs is treated as Olla's own header).",
          "Trusts the harness raw backend/client and that self-identifying body tiles attribute bytes correctly; schedules are those the harness produces (one request at a time per stack).",
          "DESIGN.md §3 C02"),
  "C07": ("exploration",
@@ -31,7 +31,7 @@ CLAIMED = {
          "DESIGN.md §3 C08"),
  "C09": ("exploration",
          "complete enumeration of the routing decision table + rapid-generated spellings/routes/histories through the full stack; reference decision table as oracle",
-         "One production stack per (engine, strategy, fallback, refresh-on-miss). The table strategy x fallback x healthy-subset x listing-subset over 4 endpoints is enumerated completely (exact spelling, proxy route) and rapid adds endpoint counts, model spellings (case, :latest), provider and Anthropic routes, bodies above the 1 MiB inspection limit and discovery histories in which an endpoint dropped the model; the serving backend, the client status (served / 404 / 503 / fallback to the healthy set) and the X-Olla-Routing-Decision header are compared with a reference decision table written from the statement.",
+         "One production stack per (engine, strategy, fallback, refresh-on-miss). The table strategy x fallback x healthy-subset x listing-subset over 4 endpoints is enumerated completely (exact spelling, proxy route) and rapid adds endpoint counts, model spellings (case, :latest), provider and Anthropic routes, bodies above the 1 MiB inspection limit and discovery histories in which an endpoint dropped the model; the serving backend, the client status (served / 404 / 503 / fallback to the healthy set) and the X-Olla-Routing-Decision header are compared with a reference decision table written from the statement. A quarter of the requests (a fifth of the table) are sent chunked, and histories may register the new listing twice back to back.",
          "Service direction only for the exact lower-case spelling, safety direction for all; discovery strategy with fallback all and refresh off accepts service or honest rejection; listed known findings are tolerated by exact root-cause signature.",
          "DESIGN.md §3 C09"),
  "C10": ("exploration",
@@ -41,7 +41,7 @@ CLAIMED = {
          "DESIGN.md §3 C10"),
  "C11": ("exploration",
          "enumeration of prefix x deployment tables + rapid-generated deployments through the full stack; typed recording backends; YAML-derived reference compatibility relation",
-         "Every routing prefix declared by the shipped YAML profiles (read by the harness's own YAML reader) is exercised on both engines against deployments built from every shipped endpoint type plus auto and documented alias spellings, with health subsets: all size-1 and size-2 deployments are enumerated (quick: a third of the pair table per run), size-3 deployments and provider-native paths are rapid-generated; the backend that receives the request must have a type in the reference relation Compatible(prefix), offline endpoints receive nothing, and with no healthy compatible endpoint the client gets a non-2xx and no backend is contacted. Model listings under each prefix must only show models of healthy compatible endpoints.",
+         "Every routing prefix declared by the shipped YAML profiles (read by the harness's own YAML reader) is exercised on both engines against deployments built from every shipped endpoint type plus auto and documented alias spellings, with health subsets: all size-1 and size-2 deployments are enumerated (quick: a third of the pair table per run), size-3 deployments and provider-native paths are rapid-generated; the backend that receives the request must have a type in the reference relation Compatible(prefix), offline endpoints receive nothing, and with no healthy compatible endpoint the client gets a non-2xx and no backend is contacted. Model listings under each prefix must only show models of healthy compatible endpoints. Deployments may contain endpoints that are listed healthy but refuse connections (fail-over), a quarter of the cases run under other model-routing strategies (discovery/optimistic with fallback all/none, refresh on miss) with a model no endpoint lists, and listings include a model every endpoint shares.",
          "Compatibility relation is derived from the property text and the YAML (profile owning the prefix; openai_compatible flag for the openai prefixes; auto matches all).",
          "DESIGN.md §3 C11"),
  "C12": ("exploration",
@@ -51,7 +51,7 @@ CLAIMED = {
          "DESIGN.md §3 C12"),
  "C13": ("exploration",
          "rapid generation of completions x SSE renderings x reader chunkings; strict Anthropic-SSE state-machine oracle; reconstruction and stream-vs-buffered differential; hostile-stream termination oracle; native fuzz targets",
-         "Completions (text/tool segments, unicode, up to 256 KiB arguments, finish reasons, three usage placements) are rendered to OpenAI SSE with arbitrary delta splits and line endings and cut into arbitrary reader chunks; the bytes written by TransformStreamingResponse are parsed by an independent strict Anthropic event grammar (one message_start first, blocks opened/closed exactly once in order, typed deltas only while open, one message_delta, message_stop last), the content is reconstructed and compared (text, tool id/name/arguments byte-for-byte, stop_reason, usage) and compared with TransformResponse on the buffered form; noisy/hostile streams must terminate without panic.",
+         "Completions (text/tool segments, unicode, up to 256 KiB arguments, finish reasons, three usage placements) are rendered to OpenAI SSE with arbitrary delta splits and line endings and cut into arbitrary reader chunks; the bytes written by TransformStreamingResponse are parsed by an independent strict Anthropic event grammar (one message_start first, blocks opened/closed exactly once in order, typed deltas only while open, one message_delta, message_stop last), the content is reconstructed and compared (text, tool id/name/arguments byte-for-byte, stop_reason, usage) and compared with TransformResponse on the buffered form; noisy/hostile streams must terminate without panic. The finish reason is placed on its own empty-delta chunk or on the chunk carrying the last content / tool delta.",
          "Tool-call fragments are contiguous per call (as real backends emit them) for the full oracle; arbitrary interleavings only for the no-crash/termination clause.",
          "DESIGN.md §3 C13"),
  "C14": ("exploration",
@@ -61,12 +61,12 @@ CLAIMED = {
          "DESIGN.md §3 C14"),
  "C15": ("exploration",
          "rapid-generated raw header blocks through the full stack; received header block compared by an independent multiset oracle",
-         "A raw TCP client writes generated header blocks (every sensitive and hop-by-hop name in random letter case, 0..3 occurrences, empty values; up to 40 arbitrary token-named headers with repeated names, obs-text and tabs; pre-existing Via / X-Forwarded-* / X-Real-IP on one or several lines) on proxy, provider, Anthropic passthrough and translated routes of both engines, with and without failover from a refusing endpoint; the raw backend's received header block must contain no sensitive or hop-by-hop header, every other client header with the same values in the same per-name order, nothing invented beyond the headers Olla/transport legitimately add, and every pre-existing forwarding value still in place before Olla's own element.",
+         "A raw TCP client writes generated header blocks (every sensitive and hop-by-hop name in random letter case, 0..3 occurrences, empty values; up to 40 arbitrary token-named headers with repeated names, obs-text and tabs; pre-existing Via / X-Forwarded-* / X-Real-IP on one or several lines) on proxy, provider, Anthropic passthrough and translated routes of both engines, with and without failover from a refusing endpoint; the raw backend's received header block must contain no sensitive or hop-by-hop header, every other client header with the same values in the same per-name order, nothing invented beyond the headers Olla/transport legitimately add, and every pre-existing forwarding value still in place before Olla's own element. A quarter of the cases are sparse (only one or two blocked names present, with drawn patterns of empty and non-empty lines).",
          "Headers nominated by the client's Connection value are not asserted; names compared case-insensitively.",
          "DESIGN.md §3 C15"),
  "C16": ("exploration",
          "rapid-generated raw request targets and endpoint configurations through the full stack; decoy listener + containment oracle on the backend's request line; differential for clean targets",
-         "Request targets are written verbatim by a raw client (dot segments, single/double percent-encodings, encoded slashes and backslashes, //, ;params, authority tricks, absolute-form targets and query values naming a decoy listener) against endpoints with empty, '/', and nested base paths, preserve_path on/off, two route prefixes and both engines; the decoy must never be contacted, the raw backend's request line must stay under the base path when preserve_path is set, clean targets must arrive at exactly base+remaining (or remaining) with the query verbatim; generated relative/absolute health_check_url / model_url values are resolved by LoadFromConfig and must keep scheme/host and stay under the base path.",
+         "Request targets are written verbatim by a raw client (dot segments, single/double percent-encodings, encoded slashes and backslashes, //, ;params, authority tricks, absolute-form targets and query values naming a decoy listener) against endpoints with empty, '/', and nested base paths, preserve_path on/off, two route prefixes and both engines; the decoy must never be contacted, the raw backend's request line must stay under the base path when preserve_path is set, clean targets must arrive at exactly base+remaining (or remaining) with the query verbatim; generated relative/absolute health_check_url / model_url values are resolved by LoadFromConfig and must keep scheme/host and stay under the base path. Route prefixes: /olla/proxy/ and every routing prefix the shipped profiles declare (alias spellings included), in front of an endpoint of the owning type.",
          "Unclean targets may be answered by the mux without backend contact (not a violation); Host header is not asserted; one listed known finding (percent-encoded dot segments under preserve_path) is tolerated by exact signature.",
          "DESIGN.md §3 C16"),
  "C03": ("exploration",
@@ -76,37 +76,37 @@ CLAIMED = {
          "DESIGN.md §3 C03"),
  "C04": ("fault_enumeration",
          "enumeration of per-candidate outcome tuples with fault-injecting backends + rapid-generated histories; attempt-count / fingerprint / status / follow-up oracle",
-         "Every assignment of {ok, refuse, reset-before-headers, circuit-open} (asserted) and {closed-without-answer, garbage} (explored) to up to 3 candidates is run on 3 balancers x 2 engines through the full stack; rapid adds bodies, methods and warm-up histories. With a working candidate and otherwise connection-level failures or skips the client must get that candidate's untouched answer (X-Olla-Endpoint naming it), every backend sees the identical request at most once, a failing request must have tried every candidate, failed endpoints are non-routable afterwards, receive none of five follow-up requests and are readmitted by a health check.",
+         "Every assignment of {ok, refuse, reset-before-headers, circuit-open} (asserted) and {closed-without-answer, garbage} (explored) to up to 3 candidates is run on 3 balancers x 2 engines through the full stack; rapid adds bodies, methods and warm-up histories. With a working candidate and otherwise connection-level failures or skips the client must get that candidate's untouched answer (X-Olla-Endpoint naming it), every backend sees the identical request at most once, a failing request must have tried every candidate, failed endpoints are non-routable afterwards, receive none of five follow-up requests and are readmitted by a health check. Client bodies are sent with Content-Length or chunked and the body the serving backend received is compared with the client's; one candidate per case may also time out at connect (a local address whose accept queue is full).",
          "The engine breaker is opened through its exported API (RecordFailure x5); refused dials cannot be observed at the backend, only through statuses.",
          "DESIGN.md §3 C04"),
  "C05": ("fault_enumeration",
          "complete enumeration of the failure-mode grid with fault-injecting backends + rapid-generated error bodies; status/format/promptness oracle",
-         "The grid {no endpoints, all unhealthy, unknown model, every endpoint refusing / resetting / closing before headers, backend 400..503 x {OpenAI error JSON, other JSON, HTML, empty}, 2xx with malformed body} x {proxy, provider, Anthropic translated, Anthropic passthrough} x stream flag x engine x endpoint count is enumerated completely through the full stack and rapid adds request texts and odd error bodies: no 2xx and no fabricated completion when nobody answered, non-empty error body, completion within 10 s while every timeout is >= 60 s, Anthropic error objects (application/json) on the Anthropic routes for both stream flags, backend statuses kept and bodies relayed.",
+         "The grid {no endpoints, all unhealthy, unknown model, every endpoint refusing / resetting / closing before headers, backend 400..503 x {OpenAI error JSON, other JSON, HTML, empty}, 2xx with malformed body} x {proxy, provider, Anthropic translated, Anthropic passthrough} x stream flag x engine x endpoint count is enumerated completely through the full stack and rapid adds request texts and odd error bodies: no 2xx and no fabricated completion when nobody answered, non-empty error body, completion within 10 s while every timeout is >= 60 s, Anthropic error objects (application/json) on the Anthropic routes for both stream flags, backend statuses kept and bodies relayed. The failure grid includes 'every candidate's breaker open', error bodies above the relay cap (big JSON / big HTML), and a promptness bound for relayed backend errors.",
          "Promptness is a one-sided wall-clock bound with a 6x margin; a 2xx backend answer with a malformed body is only asserted on the non-streaming translated path.",
          "DESIGN.md §3 C05"),
  "C17": ("exploration",
          "rapid-generated client behaviours against freshly booted rate-limited stacks; token-bucket upper bound oracle over an over-estimated window; size cases around the limits",
-         "Each rate case boots the production assembly with fast limits (300..1200/min, burst 1..10, optional global limit) and drives 1..8 concurrent senders (own connections, keep-alive on/off, proxy/provider/Anthropic/mixed routes, interleaved health requests); requests that reach the recording backend are counted against burst + rate x t + 1 over the window [first send, last receive], every refusal must be 429. Size cases send bodies at limit-1, limit, limit+1 and 5x limit with Content-Length or chunked framing against max_body_size and the Anthropic max_message_size: nothing above the limit reaches the backend, no 2xx, 413 on the Anthropic route.",
+         "Each rate case boots the production assembly with fast limits (300..1200/min, burst 1..10, optional global limit) and drives 1..8 concurrent senders (own connections, keep-alive on/off, proxy/provider/Anthropic/mixed routes, interleaved health requests); requests that reach the recording backend are counted against burst + rate x t + 1 over the window [first send, last receive], every refusal must be 429. Size cases send bodies at limit-1, limit, limit+1 and 5x limit with Content-Length or chunked framing against max_body_size and the Anthropic max_message_size: nothing above the limit reaches the backend, no 2xx, 413 on the Anthropic route. Sub-check 'first': 2..12 requests fired at the same instant over pre-established connections from a client address the limiter has never seen (a fresh loopback address per case): at most burst are admitted.",
          "All senders share 127.0.0.1; the window is over-estimated so load can only loosen the bound (no false alarm), at the price of missing marginal excess.",
          "DESIGN.md §3 C17"),
  "C18": ("exploration",
          "rapid-generated batches of concurrent exchanges with causally gated, stalling and aborted streams; hand-shake liveness oracle, one-sided time bounds, leak check at quiescence",
-         "Batches of 4..16 concurrent exchanges per (engine, proxy profile) through the full stack: gated streams (the scripted backend sends chunk k+1 only after the client acknowledged chunk k, so buffering deadlocks and is detected without wall-clock), complete streams with pauses <= 300 ms, stalls after the headers / after k chunks / before the headers, and client aborts; chunk sizes 1 B..256 KiB, SSE/NDJSON/JSON/text/binary, chunked/Content-Length/close-delimited framing. Completed streams must arrive byte-identical, stalls must end within read timeout + 5 s (the backend itself waits 12 s longer), aborts must reach the backend within 5 s, and after every batch the goroutine count and upstream connections return to the pre-batch baseline.",
+         "Batches of 4..16 concurrent exchanges per (engine, proxy profile) through the full stack: gated streams (the scripted backend sends chunk k+1 only after the client acknowledged chunk k, so buffering deadlocks and is detected without wall-clock), complete streams with pauses <= 300 ms, stalls after the headers / after k chunks / before the headers, and client aborts; chunk sizes 1 B..256 KiB, SSE/NDJSON/JSON/text/binary, chunked/Content-Length/close-delimited framing. Completed streams must arrive byte-identical, stalls must end within read timeout + 5 s (the backend itself waits 12 s longer), aborts must reach the backend within 5 s, and after every batch the goroutine count and upstream connections return to the pre-batch baseline. Clients also abort before the backend has answered (on the proxy and the translated Anthropic streaming route); a third of the batches and eight fixed probes repeat one exchange n times so that a per-exchange leak exceeds the slack.",
          "Time bounds are one-sided with >= 3 s slack; buffered modes (standard profile, binary under auto) are only checked for completeness; goroutine leaks are detected by count (+-2).",
          "DESIGN.md §3 C18"),
  "C06": ("exploration",
          "rapid-generated endpoint lists against a reference selector model; concurrent fairness counting",
-         "Selectors obtained from balancer.Factory over a real stats collector are judged against reference rules on generated lists (n<=5, all statuses, priorities, gauge vectors) sequentially and from up to 32 goroutines: member-or-error, top-tier only and every tier member reached, exact k-per-member round-robin fairness over any window, minimal gauge for least-connections.",
+         "Selectors obtained from balancer.Factory over a real stats collector are judged against reference rules on generated lists (n<=5, all statuses, priorities, gauge vectors) sequentially and from up to 32 goroutines: member-or-error, top-tier only and every tier member reached, exact k-per-member round-robin fairness over any window, minimal gauge for least-connections. A 'gauges' sub-check fires concurrent first-use increments at never-seen endpoints: none may be lost.",
          "Priority's weighted pick uses unseedable math/rand: tier coverage is judged over 1200 selections (miss probability <= e^-29 per case).",
          "DESIGN.md §3 C06"),
  "C19": ("exploration",
          "rapid-generated concurrent workloads over scripted per-endpoint outcomes; harness tally (client observations + backend-side attempts) vs counter deltas; gauge sampling and quiescence invariant",
-         "Workloads of 1..64 concurrent clients through the full stack against up to 3 endpoints with fixed scripted outcomes (ok, 500, 404, reset mid-body, stall mid-body, reset before headers, refuse), on proxy, Anthropic translated and passthrough routes, 3 balancers and both engines, with optional client aborts. Gauges are sampled during the run (never negative, never above what the started requests can account for) and must be zero at quiescence; collector totals (global, per endpoint), engine and translator counters are compared as deltas with the harness's own tally: total = success + failure, attempts recorded once, successes = complete 2xx responses, failing endpoints record no success.",
+         "Workloads of 1..64 concurrent clients through the full stack against up to 3 endpoints with fixed scripted outcomes (ok, 500, 404, reset mid-body, stall mid-body, reset before headers, refuse), on proxy, Anthropic translated and passthrough routes, 3 balancers and both engines, with optional client aborts. Gauges are sampled during the run (never negative, never above what the started requests can account for) and must be zero at quiescence; collector totals (global, per endpoint), engine and translator counters are compared as deltas with the harness's own tally: total = success + failure, attempts recorded once, successes = complete 2xx responses, failing endpoints record no success. Sub-check 'inflight': simultaneous clients against never-seen endpoints that are dead or hold the request; once all requests are parked the gauges must be exact (hold = requests parked there, dead = 0).",
          "Client-aborted exchanges may be recorded either way; an endpoint skipped for its open breaker may be recorded as a failure (olla engine); four listed known findings (relayed 4xx/5xx and translator backend errors counted as successes, engine totals per request vs outcomes per attempt) are tolerated by exact signature, anything not explained by them is reported.",
          "DESIGN.md §3 C19"),
  "C20": ("exploration",
          "seed-corpus + rapid-generated byte/JSON mutations with per-target judges; native go fuzz targets (thorough); poisoned discovery rounds and hostile relay bodies through the full stack",
-         "Every provider's listing parser (through the real profile factory), the metrics extractor for every profile, TransformResponse and TransformStreamingResponse are fed the repository's own fixtures, hostile constants and rapid-generated byte-level and JSON-aware mutations of them; each call runs under a panic/hang guard (5 s) and its result is judged (error or sane output, finite non-wrapping numbers). At stack level a discovery round in which one endpoint serves an unparseable / empty / oversized / nameless / duplicate listing while another serves a good one must leave the registry consistent, keep a concurrent probe request served and let the next good round through; hostile bodies are relayed through the error and stream paths. The same judges sit inside four native fuzz targets whose saved inputs are replayed on every run.",
+         "Every provider's listing parser (through the real profile factory), the metrics extractor for every profile, TransformResponse and TransformStreamingResponse are fed the repository's own fixtures, hostile constants and rapid-generated byte-level and JSON-aware mutations of them; each call runs under a panic/hang guard (5 s) and its result is judged (error or sane output, finite non-wrapping numbers). At stack level a discovery round in which one endpoint serves an unparseable / empty / oversized / nameless / duplicate listing while another serves a good one must leave the registry consistent, keep a concurrent probe request served and let the next good round through; hostile bodies are relayed through the error and stream paths. The same judges sit inside four native fuzz targets whose saved inputs are replayed on every run. After a poisoned listing the unified catalogue is judged as well (modulo names equal up to case); hostile stream constants include a >1 MiB line after output has started.",
          "Native coverage-guided fuzzing cannot be seeded and runs only in the thorough tier; the hang bound is wall-clock (5 s for inputs capped at 64 KiB).",
          "DESIGN.md §3 C20"),
 }
